@@ -11,6 +11,7 @@ import Ajson.Proofs.MutBasics
 import Ajson.Proofs.WFInv
 import Ajson.Proofs.WFRemove
 import Ajson.Proofs.WFMove
+import Ajson.Proofs.Frame
 import Ajson.Model.Decode
 
 namespace Ajson.Props.C05
@@ -71,6 +72,48 @@ theorem C05_inv_append_array_any {h : Heap} (hs : Struct h) (ha : Acyc h) (n val
     (harr : (h.get n).type = .array) (hloop : h.isParentOrSelfNode n value = false) :
     (h.appendArray n [value]).2 = .ok () ∧ Struct (h.appendArray n [value]).1 ∧ Acyc (h.appendArray n [value]).1 :=
   struct_appendArray_any hs ha n value hn hv harr hloop
+
+/-! ### everything not addressed is unchanged
+
+For the same operations — on EVERY sound heap, every receiver and argument — a node that lies neither in the tree of the receiver
+nor in the tree of the argument (`SameTree`: no common ancestor) keeps its WHOLE record: parent, key, index, children map, type,
+source span, dirty flag and cache cell. So every other tree in play (other documents, subtrees detached earlier, clones) is bit for
+bit what it was, whatever is read from it. The lemmas in `Proofs/Frame` are stronger and need no invariant at all: the only records
+an operation can touch are the receiver, its ancestors, the entries of its children map, the argument, and the argument's former
+parent with its ancestors and entries. -/
+theorem C05_untouched_append_array {h : Heap} (hs : Struct h) (n value : Nat) (hn : n < h.size) (hv : value < h.size) (m : Id)
+    (h1 : ¬ SameTree h m n) (h2 : ¬ SameTree h m value) : (h.appendArray n [value]).1.get m = h.get m :=
+  appendArray_untouched hs n value hn hv m h1 h2
+
+theorem C05_untouched_append_object {h : Heap} (hs : Struct h) (n value : Nat) (key : Bytes) (hn : n < h.size) (hv : value < h.size)
+    (m : Id) (h1 : ¬ SameTree h m n) (h2 : ¬ SameTree h m value) : (h.appendObject n key value).1.get m = h.get m :=
+  appendObject_untouched hs n value key hn hv m h1 h2
+
+theorem C05_untouched_popKey {h : Heap} (hs : Struct h) (n : Nat) (key : Bytes) (hn : n < h.size) (m : Id) (h1 : ¬ SameTree h m n) :
+    (h.popKey (some n) key).1.get m = h.get m := popKey_untouched hs n key hn m h1
+
+theorem C05_untouched_popIndex {h : Heap} (hs : Struct h) (n : Nat) (i : Int) (hn : n < h.size) (m : Id) (h1 : ¬ SameTree h m n) :
+    (h.popIndex (some n) i).1.get m = h.get m := popIndex_untouched hs n i hn m h1
+
+theorem C05_untouched_delete {h : Heap} (hs : Struct h) (n : Nat) (hn : n < h.size) (m : Id) (h1 : ¬ SameTree h m n) :
+    (h.delete n).1.get m = h.get m := delete_untouched hs n hn m h1
+
+theorem C05_untouched_set_scalar {h : Heap} (hs : Struct h) (n : Nat) (hn : n < h.size) (v : SetVal) (hv : v.type.isContainer = false)
+    (m : Id) (h1 : ¬ SameTree h m n) : (h.update (some n) v).1.get m = h.get m := update_scalar_untouched hs n hn v hv m h1
+
+/-- the region is what it says even without the invariant: `mark` touches ancestors only -/
+theorem C05_mark_frame (h : Heap) (n m : Id) (hm : ¬ Anc h m n) : (h.mark n).get m = h.get m := mark_frame h n m hm
+
+/-- non-vacuity: in a heap with two parsed documents the nodes of one are not in the tree of the other -/
+example : (match unmarshal "[1,2]".toUTF8.toList with
+    | .error _ => false
+    | .ok (h0, r0) => match unmarshalIn h0 "{\"a\":3}".toUTF8.toList with
+      | .error _ => false
+      | .ok (h1, r1) =>
+        -- roots differ, and appending to the first leaves every record of the second alone
+        let (h2, x) := h1.scalarNode [] .null none
+        let (h3, _) := h2.appendArray r0 [x]
+        (List.range h3.size).all (fun m => !(h3.root m == r1) || h3.get m == h2.get m)) = true := by decide +kernel
 
 /-- a read fills at most a cache cell, which the invariant does not look at -/
 theorem C05_inv_cache_fill {h : Heap} (hs : Struct h) (n : Id) (c : Option CacheVal) :
